@@ -53,10 +53,12 @@ Definition run_full (pagesize : Z) (has_rollup : bool) (rmode : Z) (ex : list by
   JL [ jpack smaps; jpack (k_rollup rl); JB (k_statm r);
        jv_outcome jv_zs (memory_full_info Alive pagesize has_rollup (fr rmode (k_rollup rl))
                                           (FContent smaps) (FContent (k_statm r)));
-       (if forallb (wf_kernel (ex_of ex)) ms && wf_statm r
-           && (negb has_rollup || negb (rmode =? 0) || (wf_rollup rl && consistent rl ms))
-           && negb (rmode =? 3)
-        then JC "Val" [jv_zs (spec_full pagesize r ms)] else jnone) ].
+       (if forallb (wf_kernel (ex_of ex)) ms && wf_statm r && negb (rmode =? 3)
+        then if negb has_rollup || negb (rmode =? 0) || (wf_rollup rl && consistent rl ms)
+             then JC "Val" [jv_zs (spec_full pagesize r ms)]
+             else if wf_rollup rl && rounded rl ms
+                  then JC "Val" [jv_zs (spec_full_ru pagesize r ms rl)] else jnone
+        else jnone) ].
 (* arbitrary contents / errors *)
 Definition run_full_raw (psn pagesize : Z) (has_rollup : bool) (rmode : Z) (rollup : bytes)
            (smode : Z) (smaps : bytes) (tmode : Z) (statm : bytes) : jv :=
@@ -67,7 +69,7 @@ Definition run_full_raw (psn pagesize : Z) (has_rollup : bool) (rmode : Z) (roll
 Definition run_maps (ex : list bytes) (ms : list mapping) : jv :=
   let smaps := k_smaps ms in
   let res := memory_maps Alive (ex_of ex) (FContent smaps) in
-  let ok := forallb (wf_kernel (ex_of ex)) ms in
+  let ok := forallb (wf_kernel (ex_of ex)) ms && uniform_figs ms in
   JL [ jpack smaps;
        jv_outcome jv_rows res;
        jv_outcome jv_grouped (omap group_rows res);
